@@ -16,6 +16,7 @@ using namespace romea::core;
 static std::map<std::string, long> A;
 static long arg(const std::string & k, long d) { auto it = A.find(k); return it == A.end() ? d : it->second; }
 
+static bool g_extreme = false;
 static int stats_history(unsigned seed, size_t W, double precision, int steps, int reset_every, bool variance)
 {
   std::mt19937 rng(seed);
@@ -30,6 +31,7 @@ static int stats_history(unsigned seed, size_t W, double precision, int steps, i
     if (reset_every && s && (int)(rng() % reset_every) == 0) { oa.reset(); ov.reset(); ref.clear(); refv.clear(); hist += " reset"; continue; }
     double maxv = 1e8 * precision;
     double v = ((double)(rng() % 2000001) / 1000000.0 - 1.0) * maxv * (rng() % 4 == 0 ? 1.0 : 1e-3);
+    if (g_extreme) v = ((s & 1) ? -1.0 : 1.0) * maxv * (1.0 - (double)(rng() % 1000) * 1e-6);     // widest admissible spread: |value|/precision up to 1e8, alternating sign
     oa.update(v); ov.update(v);
     long long x = (long long)(v * (double)m);
     ref.push_back(x); if (ref.size() > W) ref.pop_front();
@@ -93,6 +95,11 @@ int main(int argc, char ** argv)
   for (size_t W = 1; W <= 64; ++W)
     for (double pr : precs)
       for (int re : {0, 5, 17}) if (stats_history(seed * 131u + (unsigned)W, W, pr, (int)(10 * W), re, true)) return 1;
+  g_extreme = true;
+  for (size_t W : {2, 3, 8, 16, 30, 31, 32, 47, 63, 64})
+    for (double pr : precs)
+      for (int re : {0, 17}) if (stats_history(seed * 17u + (unsigned)W, W, pr, (int)(4 * W), re, true)) return 1;
+  g_extreme = false;
   for (size_t cap = 1; cap <= 16; ++cap) for (int ce : {0, 4, 9}) if (ring_history(seed + (unsigned)cap, cap, (int)(10 * cap + 3), ce)) return 1;
   printf("no failing input found: histories for W=1..64, precisions 1..1e-6, capacities 1..16 agree with the last-W reference\n");
   return 0;
